@@ -150,13 +150,18 @@ ODD_EXCEPTIONS = [
     "class E(Exception):\n    __slots__ = ('extra',)\nraise E('s')\n",
     "class Meta(type):\n    pass\nclass E(Exception, metaclass=Meta):\n    pass\nraise E()\n",
     "def f():\n    raise LookupError\nf()\n",
+    "raise type('', (Exception,), {})()\n",
+    "E = type('error', (ValueError,), {})\nraise E('lower-case name')\n",
+    "class Outer:\n    class Inner(Exception):\n        pass\nraise Outer.Inner()\n",
+    "raise Exception\n",
 ]
 
 
-def odd_exceptions(k0: bool, k1: bool, k2: bool, as_call: bool) -> bool:
+def odd_exceptions(k0: bool, k1: bool, k2: bool, k3: bool, as_call: bool) -> bool:
     """
     Real exec of programs raising UNUSUAL exception objects - a frozen dataclass, one whose __setattr__ refuses, a KeyError
-    subclass, a two-argument constructor, container arguments, __slots__, a metaclass, a bare class: run() (or call() of
+    subclass, a two-argument constructor, container arguments, __slots__, a metaclass, a bare class, a class WITHOUT a name,
+    a lower-case class name, a nested class, the bare Exception class: run() (or call() of
     a wrapper function) returns normally, the failure is the sandbox's exception, exactly one runtime-category feedback is
     attached and it is located on the raising line.
 
@@ -165,7 +170,9 @@ def odd_exceptions(k0: bool, k1: bool, k2: bool, as_call: bool) -> bool:
     """
     if tick():
         return True
-    k = bits(k0, k1, k2)
+    k = bits(k0, k1, k2, k3)
+    if k >= len(ODD_EXCEPTIONS):
+        return True
     as_call = True if as_call else False
     with NoTracing():
         code = ODD_EXCEPTIONS[k]
